@@ -38,7 +38,6 @@
 package context
 
 import (
-	"errors"
 	"math/big"
 
 	"github.com/db47h/decimal"
@@ -194,9 +193,12 @@ func (c *Context) Add(z, x, y *decimal.Decimal) (r *decimal.Decimal) {
 		}
 		defer func() {
 			if err := recover(); err != nil {
-				if !errors.As(err.(error), &c.err) {
+				e, ok := err.(decimal.ErrNaN)
+				if !ok {
+					// not ours: only NaNs are recorded by the context
 					panic(err)
 				}
+				c.err = e
 				r = z
 			}
 		}()
@@ -212,9 +214,12 @@ func (c *Context) Sub(z, x, y *decimal.Decimal) (r *decimal.Decimal) {
 		}
 		defer func() {
 			if err := recover(); err != nil {
-				if !errors.As(err.(error), &c.err) {
+				e, ok := err.(decimal.ErrNaN)
+				if !ok {
+					// not ours: only NaNs are recorded by the context
 					panic(err)
 				}
+				c.err = e
 				r = z
 			}
 		}()
@@ -231,9 +236,12 @@ func (c *Context) FMA(z, x, y, u *decimal.Decimal) (r *decimal.Decimal) {
 		}
 		defer func() {
 			if err := recover(); err != nil {
-				if !errors.As(err.(error), &c.err) {
+				e, ok := err.(decimal.ErrNaN)
+				if !ok {
+					// not ours: only NaNs are recorded by the context
 					panic(err)
 				}
+				c.err = e
 				r = z
 			}
 		}()
@@ -249,9 +257,12 @@ func (c *Context) Mul(z, x, y *decimal.Decimal) (r *decimal.Decimal) {
 		}
 		defer func() {
 			if err := recover(); err != nil {
-				if !errors.As(err.(error), &c.err) {
+				e, ok := err.(decimal.ErrNaN)
+				if !ok {
+					// not ours: only NaNs are recorded by the context
 					panic(err)
 				}
+				c.err = e
 				r = z
 			}
 		}()
@@ -267,9 +278,12 @@ func (c *Context) Quo(z, x, y *decimal.Decimal) (r *decimal.Decimal) {
 		}
 		defer func() {
 			if err := recover(); err != nil {
-				if !errors.As(err.(error), &c.err) {
+				e, ok := err.(decimal.ErrNaN)
+				if !ok {
+					// not ours: only NaNs are recorded by the context
 					panic(err)
 				}
+				c.err = e
 				r = z
 			}
 		}()
@@ -308,9 +322,12 @@ func (c *Context) Sqrt(z, x *decimal.Decimal) (r *decimal.Decimal) {
 		}
 		defer func() {
 			if err := recover(); err != nil {
-				if !errors.As(err.(error), &c.err) {
+				e, ok := err.(decimal.ErrNaN)
+				if !ok {
+					// not ours: only NaNs are recorded by the context
 					panic(err)
 				}
+				c.err = e
 				r = z
 			}
 		}()
